@@ -25,6 +25,24 @@ CHECKS = {
              'complete parsed contents (every container, every field, order) are compared with a reference derived from '
              'the generating model; exploration, not proof - strength is the number and diversity of documents.',
         note=TRUST_PY, design='C05'),
+    'C07': dict(
+        technique=PBT + 'an independent reference lookup (scope chain uniqueness) whose result is compared with the types extracted from the generated text; metamorphic relation (unrelated same-named declarations); reference faults must be refused',
+        text='Generated-input search over collision-heavy models and every spelling of a reference; the declaration the '
+             'shell uses is read back from accessor types, lambda parameter types and the granting-reply comparison and '
+             'must be the unique one on the scope chain; exploration.',
+        note=TRUST_PY, design='C07'),
+    'C08': dict(
+        technique='differential testing across child interpreters (PYTHONHASHSEED x set construction order x warm/fresh process) over Hypothesis-generated (model, configuration) pairs',
+        text='Every generated pair is built under 8 (quick) / 32 (thorough) hash-seed x order variants in separate '
+             'processes; all must agree byte for byte (sha256) and every reported hash must be the md5 of the contents; '
+             'exploration.',
+        note=TRUST_PY, design='C08'),
+    'C12': dict(
+        technique='model-based generation of build histories (operation sequences) with snapshot invariants and a differential against a fresh interpreter per build; failing histories delta-debugged',
+        text='Sequences of builds over shared parsed models with valid and invalid configurations and kept/fresh builders; '
+             'after every step the inputs must be structurally unchanged and the outcome must equal the first build of a '
+             'fresh process; exploration.',
+        note=TRUST_PY, design='C12'),
     'C13': dict(
         technique='single-fault enumeration over Hypothesis-generated valid (model, configuration) pairs with a result-completeness / error-class oracle and a watchdog',
         level='fault_enumeration',
